@@ -258,8 +258,15 @@ func (sw *SnapshotWriter) saveHeader() error {
 	}
 	sh.HeaderChecksum = headerHash.Sum(nil)
 	data = pb.MustMarshal(&sh)
-	if uint64(len(data)) > HeaderSize-8 {
+	if uint64(len(data)) > HeaderSize-12 {
 		panic("snapshot header is too large")
+	}
+	// the checksum getHeader and the stream validator verify is the 4 bytes
+	// that follow the marshaled header, see validateHeader. leaving them zero
+	// disables that check.
+	dataHash := getDefaultChecksum()
+	if _, err := dataHash.Write(data); err != nil {
+		return err
 	}
 	lenbuf := make([]byte, 8)
 	binary.LittleEndian.PutUint64(lenbuf, uint64(len(data)))
@@ -267,6 +274,9 @@ func (sw *SnapshotWriter) saveHeader() error {
 		return err
 	}
 	if _, err := sw.file.WriteAt(data, 8); err != nil {
+		return err
+	}
+	if _, err := sw.file.WriteAt(dataHash.Sum(nil), int64(8+len(data))); err != nil {
 		return err
 	}
 	return nil
